@@ -42,6 +42,9 @@ func CheckGenesis(g *GenesisConfig) error {
 	if err := CheckFieldsExist(g); err != nil {
 		return err
 	}
+	if err := CheckUniqueBalances(g); err != nil {
+		return err
+	}
 	if err := CheckPlasmaInfo(g); err != nil {
 		return err
 	}
@@ -57,6 +60,24 @@ func CheckGenesis(g *GenesisConfig) error {
 	return nil
 }
 
+// CheckUniqueBalances - a balance is given at most once for an address and a token
+func CheckUniqueBalances(g *GenesisConfig) error {
+	type balanceKey struct {
+		address types.Address
+		zts     types.ZenonTokenStandard
+	}
+	seen := make(map[balanceKey]struct{})
+	for _, block := range g.GenesisBlocks.Blocks {
+		for zts := range block.BalanceList {
+			key := balanceKey{address: block.Address, zts: zts}
+			if _, ok := seen[key]; ok {
+				return errors.Errorf("balance of %v for %v is given more than once in GenesisBlocks", zts, block.Address)
+			}
+			seen[key] = struct{}{}
+		}
+	}
+	return nil
+}
 func CheckFieldsExist(g *GenesisConfig) error {
 	if g.GenesisBlocks == nil {
 		return errors.Errorf("GenesisBlocks is nil")
